@@ -107,6 +107,8 @@ MUST_FIRE = [
     ("split-update-adapts-in-random-branch", ["C10", "C04"], ["R10.3", "R4.4"], BZ,
      "                else:\n                    if q:\n                        self.theta_ *= 1 - self.s\n                    else:\n                        self.theta_ *= 1 + self.s\n",
      "                if q:\n                    self.theta_ *= 1 - self.s\n                else:\n                    self.theta_ *= 1 + self.s\n"),
+    ("pwc-raw-sentinel-on-encoded-labels", ["C09"], ["R9.1"], P + "classifier/_parzen_window_classifier.py",
+     "is_lbld = is_labeled(y, missing_label=1)", "is_lbld = is_labeled(y, missing_label=self.missing_label)"),
     # ---- C03
     ("split-set-state-deleted", ["C03"], ["R3"], BZ,
      "        self.random_state_.set_state(random_state_state)\n", "        pass\n"),
@@ -207,7 +209,7 @@ MUST_FIRE = [
      "            new_queried_indices = [0] if q else []\n            super().update([x_t], new_queried_indices)\n",
      "        super().update(candidates, queried_indices)\n"),
     # ---- C11
-    ("base-predict-not-decoded", ["C11"], ["R11.1"], P + "base.py",
+    ("base-predict-not-decoded", ["C11", "C09"], ["R11.1", "R9.6"], P + "base.py",
      "        y_pred = self._le.inverse_transform(y_pred)\n        y_pred = np.asarray(y_pred, dtype=self.classes_.dtype)", "        y_pred = np.asarray(y_pred, dtype=self.classes_.dtype)"),
     ("ensemble-total-sum", ["C11"], ["R11.2"], P + "classifier/multiannotator/_annotator_ensemble_classifier.py",
      "P = V / np.sum(V, axis=1, keepdims=True)", "P = V / np.sum(V)"),
